@@ -83,13 +83,68 @@ pub struct Printer<'a> {
     tynames: HashMap<TyVarId, String>,
     counter: u32,
     rng: Rng,
+    /// typed error injection: the site number at which to print an ill-typed variant
+    pub mutation: Option<usize>,
+    pub sites: usize,
+    pub applied: Option<String>,
 }
 
 const POOL: &[&str] = &["a", "b", "c", "x", "y", "z"];
 
 impl<'a> Printer<'a> {
     pub fn new(decls: &'a Decls, style: &'a Style, seed: u64) -> Self {
-        Printer { decls, style, names: HashMap::new(), tynames: HashMap::new(), counter: 0, rng: Rng::new(seed) }
+        Printer {
+            decls,
+            style,
+            names: HashMap::new(),
+            tynames: HashMap::new(),
+            counter: 0,
+            rng: Rng::new(seed),
+            mutation: None,
+            sites: 0,
+            applied: None,
+        }
+    }
+
+    /// Count an error-injection site; true if this is the one to mutate.
+    fn site(&mut self, kind: &str) -> bool {
+        let idx = self.sites;
+        self.sites += 1;
+        if self.mutation == Some(idx) {
+            self.applied = Some(kind.to_string());
+            true
+        } else {
+            false
+        }
+    }
+
+    /// A closed term that definitely does not have type `ty` (no inference can make it fit).
+    fn wrong_value(&mut self, ty: &VTy) -> String {
+        // sometimes a sort confusion instead of a type confusion
+        match self.rng.below(8) {
+            | 0 => {
+                self.applied = Some("type-where-value-expected".into());
+                return "Int64".to_string();
+            }
+            | 1 => {
+                self.applied = Some("computation-where-value-expected".into());
+                return "(ret 5)".to_string();
+            }
+            | _ => {}
+        }
+        match ty {
+            | VTy::Int => (*self.rng.pick(&["\"wrong\"", "()", "{ ret 1 }", "(1, 2)"])).to_string(),
+            | VTy::Str => (*self.rng.pick(&["17", "()", "{ ret \"s\" }"])).to_string(),
+            | VTy::Unit => (*self.rng.pick(&["17", "\"wrong\"", "(1, 2)"])).to_string(),
+            | VTy::Prod(_) | VTy::Named(_) => (*self.rng.pick(&["17", "\"wrong\"", "()", "{ ret 1 }"])).to_string(),
+            | VTy::Data(..) => (*self.rng.pick(&["17", "\"wrong\"", "(1, 2)", "{ ret 1 }", "+Zz9()"])).to_string(),
+            | VTy::Thk(c) => match &**c {
+                | CTy::Ret(a) if matches!(**a, VTy::Int) => (*self.rng.pick(&["17", "{ ret \"wrong\" }", "{ fn (q : Int64) => ret q }"])).to_string(),
+                | CTy::Ret(_) => (*self.rng.pick(&["17", "{ ret 17 }", "{ fn (q : Int64) => ret q }"])).to_string(),
+                | _ => (*self.rng.pick(&["17", "{ ret 17 }", "\"wrong\""])).to_string(),
+            },
+            | VTy::Var(_) => (*self.rng.pick(&["17", "\"wrong\"", "()"])).to_string(),
+        }
     }
 
     fn field(&self, f: &str) -> String {
@@ -254,6 +309,9 @@ impl<'a> Printer<'a> {
 
     /// Print a value in a position where an atom is required. `checked`: the position supplies the type.
     pub fn val(&mut self, v: &Val, ty: &VTy, checked: bool, vis: &Vec<(String, VarId)>) -> String {
+        if checked && self.site("wrong-value-at-checked-position") {
+            return self.wrong_value(ty);
+        }
         let needs_ann = !checked && matches!(v, Val::Ctor { .. });
         let s = match v {
             | Val::Var(x) => self.names.get(x).cloned().unwrap_or_else(|| format!("UNBOUND{}", x)),
@@ -291,7 +349,7 @@ impl<'a> Printer<'a> {
                 for (p, a) in d.params.iter().zip(targs.iter()) {
                     payload_ty = payload_ty.subst(*p, a);
                 }
-                let name = d.ctors[*ctor].0.clone();
+                let name = if self.site("unknown-constructor") { "+Zz9".to_string() } else { d.ctors[*ctor].0.clone() };
                 let inner = self.val(arg, &payload_ty, true, vis);
                 if inner.starts_with('(') { format!("{}{}", name, inner) } else { format!("{}({})", name, inner) }
             }
@@ -302,7 +360,8 @@ impl<'a> Printer<'a> {
             | Val::Proj(head, field, _, head_ty) => {
                 let h = self.val(head, head_ty, false, vis);
                 // `ret v/f` parses as `(ret v)/f`: a projection is not an atom
-                format!("({}/{})", h, self.field(field))
+                let f = if self.site("unknown-field") { "zz9".to_string() } else { self.field(field) };
+                format!("({}/{})", h, f)
             }
         };
         if needs_ann || (self.style.annotate_all && !matches!(v, Val::Var(_)) && !ty.mentions_tyvar_free()) {
@@ -332,6 +391,11 @@ impl<'a> Printer<'a> {
             | Comp::Do { pat, bindee, bindee_ty, tail } => {
                 let b = self.comp(bindee, &ret(bindee_ty.clone()), false, vis);
                 let b = if loose(bindee) { format!("({})", b) } else { b };
+                let b = if self.site("do-on-non-returner") {
+                    (*self.rng.pick(&["(fn (q : Int64) => ret q)", "17", "{ ret 17 }", "(comatch end)"])).to_string()
+                } else {
+                    b
+                };
                 let mut vis2 = vis.clone();
                 let tail_ref: &Comp = tail;
                 self.pat_names(pat, &|x| free_in_comp(tail_ref, x), &mut vis2, &mut Vec::new());
@@ -349,6 +413,21 @@ impl<'a> Printer<'a> {
                 let t = self.comp(tail, ty, checked, &vis2);
                 if annotate {
                     let tys = self.vty(vt, 5);
+                    let tys = if self.site("wrong-annotation") {
+                        match self.rng.below(4) {
+                            | 0 => {
+                                self.applied = Some("term-where-type-expected".into());
+                                "17".to_string()
+                            }
+                            | 1 => {
+                                self.applied = Some("kind-where-type-expected".into());
+                                "VType".to_string()
+                            }
+                            | _ => (if matches!(vt, VTy::Int) { "String" } else { "Int64" }).to_string(),
+                        }
+                    } else {
+                        tys
+                    };
                     format!("let {} : {} = {} in\n{}", p, tys, v, t)
                 } else {
                     format!("let {} = {} in\n{}", p, v, t)
@@ -364,6 +443,11 @@ impl<'a> Printer<'a> {
                 self.pat_names(pat, &|x| free_in_comp(body_ref, x), &mut vis2, &mut Vec::new());
                 let p = self.pat(pat);
                 let tys = self.vty(pty, 5);
+                let tys = if checked && self.site("wrong-parameter-annotation") {
+                    (if matches!(pty, VTy::Int) { "String" } else { "Int64" }).to_string()
+                } else {
+                    tys
+                };
                 let b = self.comp(body, &result, checked, &vis2);
                 if self.style.telescopes && b.starts_with("fn ") {
                     format!("fn ({} : {}) {}", p, tys, &b[3..])
@@ -380,10 +464,17 @@ impl<'a> Printer<'a> {
             | Comp::Force(v) => {
                 let vt = thk(ty.clone());
                 let s = self.val(v, &vt, checked, vis);
+                let s = if self.site("force-non-thunk") { (*self.rng.pick(&["17", "\"wrong\"", "()", "(1, 2)"])).to_string() } else { s };
                 format!("! {}", s)
             }
             | Comp::Match { scrut, scrut_ty, arms } => {
                 let s = self.val_any(scrut, scrut_ty, false, vis);
+                let has_ctor_arm = arms.iter().any(|(p, _)| matches!(p, Pat::Ctor(..)));
+                let s = if has_ctor_arm && self.site("match-on-non-data") {
+                    (*self.rng.pick(&["17", "\"wrong\"", "(1, 2)", "{ ret 1 }"])).to_string()
+                } else {
+                    s
+                };
                 let mut out = format!("match {}", s);
                 for (p, body) in arms {
                     let mut vis2 = vis.clone();
@@ -407,6 +498,12 @@ impl<'a> Printer<'a> {
             }
             | Comp::Dtor { head, decl, dtor } => {
                 let h = self.comp_head(head, &CTy::Codata(*decl), vis);
+                if self.site("unknown-destructor") {
+                    return format!("{} .zz9", h);
+                }
+                if self.site("destructor-on-function") {
+                    return format!("(fn (q : Int64) => ret q : Int64 -> Ret Int64) {}", self.decls.codata[*decl].dtors[*dtor].0);
+                }
                 format!("{} {}", h, self.decls.codata[*decl].dtors[*dtor].0)
             }
             | Comp::Fix { var, ty: fty, body } => {
@@ -444,7 +541,14 @@ impl<'a> Printer<'a> {
                     | PrimOp::ToString => ("to_string", vec![VTy::Int]),
                     | PrimOp::Append => ("append", vec![VTy::Str, VTy::Str]),
                 };
-                let parts: Vec<String> = args.iter().zip(tys.iter()).map(|(a, t)| self.val(a, t, true, vis)).collect();
+                let mut parts: Vec<String> = args.iter().zip(tys.iter()).map(|(a, t)| self.val(a, t, true, vis)).collect();
+                if self.site("extra-argument") {
+                    parts.push("17".into());
+                } else if checked && parts.len() >= 2 && self.site("missing-argument") {
+                    // definite only where the context fixes the expected type (an unused synthesised thunk may legally
+                    // hold a partial application)
+                    parts.pop();
+                }
                 format!("! {} {}", name, parts.join(" "))
             }
             | Comp::If { op, a, b, res, then, els } => {
@@ -458,11 +562,15 @@ impl<'a> Printer<'a> {
                 let y = self.val(b, &t, true, vis);
                 let th = self.comp(then, res, true, vis);
                 let el = self.comp(els, res, true, vis);
+                let wrong = if matches!(res, CTy::Ret(_)) { "! exit 1" } else { "ret 1" };
+                let th = if self.site("branch-type-mismatch") { wrong.to_string() } else { th };
+                let el = if self.site("branch-type-mismatch") { wrong.to_string() } else { el };
                 format!("! {} {} {} {} {{ {} }} {{ {} }}", name, r, x, y, th, el)
             }
             | Comp::WriteLine(v, k) => {
                 let s = self.val(v, &VTy::Str, true, vis);
                 let kk = self.comp(k, &CTy::OS, true, vis);
+                let kk = if self.site("wrong-continuation-type") { "ret 1".to_string() } else { kk };
                 format!("! write_line {} {{\n{} }}", s, kk)
             }
             | Comp::Exit(v) => {
@@ -608,7 +716,14 @@ let str_eq = text/string/eq in
 
 /// Whole program text: prelude, declarations (in a block, with `that`), body.
 pub fn program_text(program: &Program, style: &Style, seed: u64) -> String {
+    program_text_mut(program, style, seed, None).0
+}
+
+/// As `program_text`, with one typed error injected at site number `mutation` (if any).
+/// Returns (text, number of injection sites seen, description of the injected error).
+pub fn program_text_mut(program: &Program, style: &Style, seed: u64, mutation: Option<usize>) -> (String, usize, Option<String>) {
     let mut p = Printer::new(&program.decls, style, seed);
+    p.mutation = mutation;
     let mut text = if style.standard_builtin { STD_PRELUDE.to_string() } else { MiniPrelude::core().text() };
     let mut decls = decl_texts(&mut p, &program.decls);
     if style.decl_shuffle != 0 {
@@ -628,5 +743,5 @@ pub fn program_text(program: &Program, style: &Style, seed: u64) -> String {
         text.push_str(&body);
         text.push_str("\nend\n");
     }
-    text
+    (text, p.sites, p.applied)
 }
